@@ -4,7 +4,7 @@
    C18/Model.v ([run_req pid request kernel] = (answer, kernel afterwards)); specification: C18/Spec.v.
    [kget pid k] = the kernel's entry for pid; [kupd pid f k] changes that one entry by f;
    [set_nice/set_ioprio/set_mask/set_rlim] change one field of an entry. *)
-From PV Require Import C18.Spec C18.Legacy C18.Proofs C18.ProofsReq C18.ProofsElig C18.ProofsThm.
+From PV Require Import C18.Spec C18.Legacy C18.Proofs C18.ProofsReq C18.ProofsElig C18.ProofsThm C18.ProofsParse.
 
 (* the packing of proc.c ((int)((unsigned)class << 13 | (unsigned)data)) loses nothing: for every
    class below 2^18 and every 13-bit data value the word is class*8192+data, fits an int and
@@ -15,15 +15,17 @@ Theorem C18_ioprio_pack_roundtrip : forall c d, 0 <= c < 2 ^ 18 -> 0 <= d < 2 ^ 
 Proof. exact ioprio_pack_roundtrip. Qed.
 Print Assumptions C18_ioprio_pack_roundtrip.
 
-(* the get forms return what the kernel holds for that process and change nothing
+(* the get forms return what the kernel reports for that process and change nothing
+   (ionice: the word ioprio_get reports -- on kernels >= 5.18 the effective class for a stored NONE;
+   rlimit: rlim_t values shown as Python shows them, RLIM_INFINITY = 2^64-1 as -1)
    (affinity: for every nr_cpu_ids up to 2^30 the growing CPU-set loop ends with the mask) *)
 Theorem C18_get_reads_kernel : forall k pid p,
   wf_kernelb k = true -> kget pid k = Some p -> wf_procb k p = true -> pid <> 0 ->
   run_req pid (Nice None) k = (Val (RInt (p_nice p)), k)
-  /\ run_req pid (Ionice None None) k = (Val (RPair (p_ioprio p / 8192) (p_ioprio p mod 8192)), k)
+  /\ run_req pid (Ionice None None) k = (Val (RPair (reported_ioprio k p / 8192) (reported_ioprio k p mod 8192)), k)
   /\ run_req pid (Affinity None) k = (Val (RList (p_mask p)), k)
   /\ forall res s h, 0 <= res < 16 -> nth_error (p_rlim p) (Z.to_nat res) = Some (s, h) ->
-       run_req pid (Rlimit res None) k = (Val (RPair s h), k).
+       run_req pid (Rlimit res None) k = (Val (RPair (rlim2py s) (rlim2py h)), k).
 Proof. exact get_reads_kernel. Qed.
 Print Assumptions C18_get_reads_kernel.
 
@@ -33,9 +35,11 @@ Theorem C18_getpriority_minus_one : forall k pid p, kget pid k = Some p -> p_nic
 Proof. exact getpriority_minus_one. Qed.
 Print Assumptions C18_getpriority_minus_one.
 
-(* nice: every value -20..19; afterwards the kernel entry is the old one with that nice value,
-   every other process is unchanged, and the get form returns the value *)
+(* nice: every value -20..19 the caller may set (raising always; lowering with CAP_SYS_NICE or
+   within RLIMIT_NICE of the target): afterwards the kernel entry is the old one with that nice
+   value, every other process is unchanged, and the get form returns the value *)
 Theorem C18_nice_set_then_get : forall k pid p v, kget pid k = Some p -> -20 <= v <= 19 ->
+  p_nice p <= v \/ can_nice k p v = true ->
   let k' := kupd pid (set_nice v) k in
   run_req pid (Nice (Some v)) k = (Val RNone, k')
   /\ kget pid k' = Some (set_nice v p)
@@ -44,15 +48,45 @@ Theorem C18_nice_set_then_get : forall k pid p v, kget pid k = Some p -> -20 <= 
 Proof. exact nice_set_then_get. Qed.
 Print Assumptions C18_nice_set_then_get.
 
-(* ionice: every class 0..3 x level (omitted = 0) 0..7, idle/none without a level *)
+(* EPERM paths: the kernel refuses, psutil raises AccessDenied carrying the pid, nothing changed *)
+Theorem C18_nice_denied : forall k pid p v, kget pid k = Some p -> fits_int v = true ->
+  clamp_nice v < p_nice p -> can_nice k p (clamp_nice v) = false ->
+  run_req pid (Nice (Some v)) k = (Exc AccessDenied, k) /\ exc_pid pid AccessDenied = Some pid.
+Proof. exact nice_denied. Qed.
+Print Assumptions C18_nice_denied.
+
+Theorem C18_ionice_rt_denied : forall k pid p v, kget pid k = Some p ->
+  0 <= match v with Some x => x | None => 0 end <= 7 ->
+  k_cap_admin k = false -> k_cap_nice k = false ->
+  run_req pid (Ionice (Some 1) v) k = (Exc AccessDenied, k) /\ exc_pid pid AccessDenied = Some pid.
+Proof. exact ionice_rt_denied. Qed.
+Print Assumptions C18_ionice_rt_denied.
+
+Theorem C18_rlimit_denied : forall k pid p res s h os om, kget pid k = Some p -> pid <> 0 -> 0 <= res < 16 ->
+  fits_long s = true -> fits_long h = true -> u64 s <= u64 h ->
+  nth_error (p_rlim p) (Z.to_nat res) = Some (os, om) ->
+  (res = RLIMIT_NOFILE /\ k_nr_open k < u64 h) \/ (om < u64 h /\ k_cap_resource k = false) ->
+  run_req pid (Rlimit res (Some [s; h])) k = (Exc AccessDenied, k) /\ exc_pid pid AccessDenied = Some pid.
+Proof. exact rlimit_denied. Qed.
+Print Assumptions C18_rlimit_denied.
+
+(* ionice: every class 0..3 x level (omitted = 0) 0..7; idle/none have the one level 0, given or
+   not (it is what the get form reports for them); RT with CAP_SYS_ADMIN or CAP_SYS_NICE.
+   The get form afterwards returns what ioprio_get reports for the new word [w]; that is the
+   value set unless the class is NONE on a kernel reporting effective classes. *)
 Theorem C18_ionice_set_then_get : forall k pid p c v,
   let lvl := match v with Some x => x | None => 0 end in
-  kget pid k = Some p -> 0 <= c <= 3 -> 0 <= lvl <= 7 -> (c = 0 \/ c = 3 -> v = None) ->
-  let k' := kupd pid (set_ioprio (c * 8192 + lvl)) k in
+  kget pid k = Some p -> -20 <= p_nice p <= 19 ->
+  0 <= c <= 3 -> 0 <= lvl <= 7 -> (c = 0 \/ c = 3 -> lvl = 0) ->
+  (c = 1 -> k_cap_admin k || k_cap_nice k = true) ->
+  let raw := c * 8192 + lvl in
+  let k' := kupd pid (set_ioprio raw) k in
+  let w := reported_ioprio k' (set_ioprio raw p) in
   run_req pid (Ionice (Some c) v) k = (Val RNone, k')
-  /\ kget pid k' = Some (set_ioprio (c * 8192 + lvl) p)
+  /\ kget pid k' = Some (set_ioprio raw p)
   /\ (forall q, q <> pid -> kget q k' = kget q k)
-  /\ run_req pid (Ionice None None) k' = (Val (RPair c lvl), k').
+  /\ run_req pid (Ionice None None) k' = (Val (RPair (w / 8192) (w mod 8192)), k')
+  /\ (c <> 0 \/ k_ioget_effective k = false -> w = raw /\ w / 8192 = c /\ w mod 8192 = lvl).
 Proof. exact ionice_set_then_get. Qed.
 Print Assumptions C18_ionice_set_then_get.
 
@@ -70,21 +104,55 @@ Theorem C18_affinity_set_then_get : forall k pid p cpus,
 Proof. exact affinity_set_then_get. Qed.
 Print Assumptions C18_affinity_set_then_get.
 
-(* rlimit: every resource 0..15, every soft <= hard as rlim_t (RLIM_INFINITY = -1 = 2^64-1):
-   that resource holds exactly the pair, the other resources and processes are unchanged *)
+(* the Python <-> rlim_t representation (CPython's resource module; psutil has no C layer of its
+   own here): -1 is RLIM_INFINITY = 2^64-1, lossless in both directions on the whole domain *)
+Theorem C18_rlim_roundtrip :
+  u64 (-1) = RLIM_INFINITY /\ rlim2py RLIM_INFINITY = -1
+  /\ (forall v, fits_long v = true -> 0 <= u64 v <= RLIM_INFINITY /\ rlim2py (u64 v) = v)
+  /\ (forall u, 0 <= u <= RLIM_INFINITY -> fits_long (rlim2py u) = true /\ u64 (rlim2py u) = u).
+Proof. exact rlim_roundtrip. Qed.
+Print Assumptions C18_rlim_roundtrip.
+
+(* rlimit: every resource 0..15, every soft <= hard as rlim_t (negative Python values are the
+   large unsigned ones), permitted to the caller (hard limit not raised, or CAP_SYS_RESOURCE;
+   NOFILE within fs.nr_open): that slot holds exactly the pair, the other resources and
+   processes are unchanged, the get form returns the pair as it was passed *)
 Theorem C18_rlimit_set_then_get : forall k pid p res s h,
   kget pid k = Some p -> wf_procb k p = true -> pid <> 0 ->
   0 <= res < 16 -> fits_long s = true -> fits_long h = true -> u64 s <= u64 h ->
-  let l' := upd_nth (Z.to_nat res) (s, h) (p_rlim p) in
-  let k' := kupd pid (fun p => set_rlim (upd_nth (Z.to_nat res) (s, h) (p_rlim p)) p) k in
+  (res = RLIMIT_NOFILE -> u64 h <= k_nr_open k) ->
+  (forall os om, nth_error (p_rlim p) (Z.to_nat res) = Some (os, om) -> u64 h <= om \/ k_cap_resource k = true) ->
+  let l' := upd_nth (Z.to_nat res) (u64 s, u64 h) (p_rlim p) in
+  let k' := kupd pid (fun p => set_rlim (upd_nth (Z.to_nat res) (u64 s, u64 h) (p_rlim p)) p) k in
   run_req pid (Rlimit res (Some [s; h])) k = (Val RNone, k')
   /\ kget pid k' = Some (set_rlim l' p)
-  /\ nth_error l' (Z.to_nat res) = Some (s, h)
+  /\ nth_error l' (Z.to_nat res) = Some (u64 s, u64 h)
   /\ (forall r, r <> Z.to_nat res -> nth_error l' r = nth_error (p_rlim p) r)
   /\ (forall q, q <> pid -> kget q k' = kget q k)
   /\ run_req pid (Rlimit res None) k' = (Val (RPair s h), k').
 Proof. exact rlimit_set_then_get. Qed.
 Print Assumptions C18_rlimit_set_then_get.
+
+(* malformed limits beyond "not a pair of length 2": soft above hard -> ValueError (the kernel's
+   EINVAL); a value outside a C long long (2^63 ..) -> OverflowError; an int instead of a
+   sequence -> TypeError (observation of DESIGN par. 8: the text would want ValueError).
+   In all three nothing changes. *)
+Theorem C18_rlimit_soft_above_hard : forall k pid p res s h, kget pid k = Some p -> pid <> 0 -> 0 <= res < 16 ->
+  fits_long s = true -> fits_long h = true -> u64 h < u64 s ->
+  run_req pid (Rlimit res (Some [s; h])) k = (Exc ValueError, k).
+Proof. exact rlimit_soft_above_hard. Qed.
+Print Assumptions C18_rlimit_soft_above_hard.
+
+Theorem C18_rlimit_value_overflow : forall k pid res s h, pid <> 0 -> 0 <= res < 16 ->
+  fits_long s = false \/ fits_long h = false ->
+  run_req pid (Rlimit res (Some [s; h])) k = (Exc OverflowError, k).
+Proof. exact rlimit_value_overflow. Qed.
+Print Assumptions C18_rlimit_value_overflow.
+
+Theorem C18_rlimit_scalar_typeerror : forall k pid res v, pid <> 0 ->
+  run_req pid (RlimitScalar res v) k = (Exc TypeError, k).
+Proof. exact rlimit_scalar_typeerror. Qed.
+Print Assumptions C18_rlimit_scalar_typeerror.
 
 (* the invalid requests raise ValueError and leave the whole kernel state as it was
    (since a87b45e also every I/O class outside 0-3);
@@ -127,6 +195,27 @@ Theorem C18_empty_affinity_all_eligible : forall k pid p,
   /\ (forall q, q <> pid -> kget q k' = kget q k).
 Proof. exact empty_affinity_all_eligible. Qed.
 Print Assumptions C18_empty_affinity_all_eligible.
+
+(* the Cpus_allowed_list parser of _get_eligible_cpus: for EVERY list the kernel can print (any
+   number of ranges and singletons, ids below 10^20), whatever lines precede it -- none starting
+   with the key, which holds for every /proc/<pid>/status since each line starts with its own
+   field name; a Name: line that LOOKS like the key is such a line -- and whatever text follows:
+   the printed set exactly when the list contains a range, all CPUs otherwise (the fallback
+   psutil's test-suite enshrines). [unlines ls] = each line followed by a newline. *)
+Theorem C18_parse_status_exact : forall lines post mask ncpu,
+  Forall (fun l => contains 10 l = false /\ drop_prefix status_lit l = None) lines ->
+  mask <> [] -> (forall c, In c mask -> 0 <= c < 10 ^ 20) ->
+  parse_status (k_status_gen (concat (map (fun l => l ++ [10]) lines)) post mask) ncpu
+  = Val (if existsb (fun ab => negb (fst ab =? snd ab)) (runs mask) then mask else zrange 0 ncpu).
+Proof. exact parse_status_exact. Qed.
+Print Assumptions C18_parse_status_exact.
+
+Theorem C18_eligible_exact : forall k pid p, kget pid k = Some p -> p_mask p <> [] ->
+  (forall c, In c (p_mask p) -> 0 <= c < 10 ^ 20) ->
+  get_eligible_cpus pid k
+  = Val (if existsb (fun ab => negb (fst ab =? snd ab)) (runs (p_mask p)) then p_mask p else zrange 0 (k_ncpu k)).
+Proof. exact eligible_exact. Qed.
+Print Assumptions C18_eligible_exact.
 
 (* REPAIRED DEFECTS.  [leg_cpu_affinity] (C18/Legacy.v) is cpu_affinity before the commits
    638fb52, 07b12aa, 7214dea; each theorem shows the old code failing the property on a
